@@ -15,7 +15,11 @@ META = {
                    'labelled with after a later transaction. ORDERING (E3): event templates (locks, mdib_version writes, '
                    'send_to_subscribers calls) recorded from real transactions of a real provider (sync and async subscription '
                    'managers); z3 searches an interleaving of 2-3 writer threads in which a subscriber gets a higher MdibVersion '
-                   'before a lower one; sat schedules are replayed with gated real threads.',
+                   'before a lower one; sat schedules are replayed with gated real threads. PERIODIC (E3): one iteration of the real '
+                   'retrievability-driven periodic loop vs. committing writers - the copies must show the MDIB at the version they are '
+                   'labelled with (label read located by taint tracking). WIRE: start-up + one transaction of each kind + renew / '
+                   'unsubscribe between a real provider and consumer over a loop-back transport, every SOAP message judged by an '
+                   'independent schema validator.',
     'outside': ['"every message validates against the bundled SOAP / WS-* / BICEPS schemas": XSD validation is libxml2 (C), not '
                 'encodable; decided only for the exchanges of C04.wire.messages_validate (real libxml2 validator on every message of '
                 'start-up + one transaction of each of 19 kinds + renew/status/unsubscribe), not for arbitrary MDIB content', 'socket delivery, the asyncio loop\'s own scheduling, HTTP '
